@@ -10,7 +10,10 @@ RULE_SUFFIX = (" About a quarter of the cases come from two constructed generato
                "'coincide' (1-2 waiters whose timeout expires at instant d while 1-4 actors grant / cancel / signal / "
                "interrupt / stop / resume / reprioritise / end the awaited thing at exactly d) and 'crowd' (2-5 waiters of one "
                "kind and a feeder that serves them with a burst of releases / puts / gets / cancels in one slice) and 'churn' "
-               "(equal-priority waiters arriving and being interrupted / stopped within one instant, then served one per instant); the "
+               "(equal-priority waiters arriving and being interrupted / stopped within one instant, then served one per instant) and "
+               "'deep' (6-14 entries in one priority queue / condition / waiting list, queried, reprioritised and served where the "
+               "shape of the heap array matters); user events may carry an action that stops / restarts / interrupts their own "
+               "waiters, timers may be added / cancelled / cleared by another process, conditions unsubscribe and resubscribe; the "
                "thorough tier adds bigger scenarios (up to 20 processes, scripts up to 40 ops).")
 
 
@@ -24,7 +27,8 @@ def strategy_for(profiles, tier="quick"):
     # constructed coincidences (several causes for one process on one instant; a burst of enabling
     # operations for a crowd of waiters): about a quarter of all cases
     k = max(1, len(opts) // 6)
-    opts += [simgen.coincide()] * k + [simgen.crowd()] * k + [simgen.churn()] * max(1, k // 2)
+    opts += [simgen.coincide()] * k + [simgen.crowd()] * k + [simgen.churn()] * max(1, k // 2) \
+        + [simgen.deep()] * max(1, k // 2)
     return st.one_of(*opts)
 
 
